@@ -154,6 +154,37 @@ def h_define(shape):
     return h
 
 
+def h_define_symid(shape):
+    """define_register with one trap id chosen by the solver (any integer in [-n-3, n+3], concretised by forking): the
+    call is accepted iff every id names a trap (0..n-1) and no id repeats; an accepted register sits on exactly those traps."""
+    from pulser.register.register_layout import RegisterLayout
+
+    n, dims, fixed = shape["n"], shape["dims"], shape["fixed"]
+
+    def h(inp):
+        P = pts(inp, n, dims)
+        inp.assume(distinct_after_rounding(P))
+        lay = RegisterLayout(P)
+        td = lay.traps_dict
+        k = facade.concretize_int(inp.int("trap_id", -n - 3, n + 3))
+        ids = list(fixed) + [k]
+        try:
+            reg = lay.define_register(*ids)
+            ok = True
+        except (ValueError, IndexError, KeyError, TypeError):
+            ok = False
+        valid = all(0 <= i < n for i in ids) and len(set(ids)) == len(ids)
+        obs = [("k2:define_accepts_iff_ids_name_distinct_traps", ok == valid)]
+        if ok and valid:
+            q = reg.qubits
+            for name, tid in zip(list(reg.qubit_ids), ids):
+                pos = list(q[name].as_array(detach=True)) if hasattr(q[name], "as_array") else list(q[name])
+                obs.append(("k2:qubit_sits_on_its_trap", AND(*[EQ(x, y) for x, y in zip(pos, list(td[tid]))])))
+        return obs
+
+    return h
+
+
 def h_wmap(shape):
     from pulser.register.weight_maps import DetuningMap
 
@@ -184,6 +215,12 @@ def h_wmap(shape):
             obs.append(("k3:qubit_gets_weight_of_its_trap", IMPLIES(sep, EQ(g1["q%d" % i], W[i]))))
             obs.append(("k3:weight_map_order_independent", IMPLIES(sep, EQ(g1["q%d" % i], g2["q%d" % i]))))
         obs.append(("k3:no_trap_no_weight", AND(EQ(g1["qfar"], 0.0), EQ(g2["qfar"], 0.0))))
+        # qubits at the ORIGINAL (unrounded) positions: a register and the map defined from it agree although the map
+        # stores its traps rounded to 6 decimals (the difference is below the documented 1e-6 matching tolerance)
+        raw = {"q%d" % i: np.array(list(P[i]), dtype=object) for i in range(n if n <= 2 else 2)}
+        g3 = m1.get_qubit_weight_map(raw)
+        for i in range(n if n <= 2 else 2):
+            obs.append(("k3:unrounded_qubit_gets_weight_of_its_trap", IMPLIES(sep, EQ(g3["q%d" % i], W[i]))))
         return obs
 
     return h
@@ -202,6 +239,8 @@ def kernels(tier):
             if dims == 3 and n == 3 and quick:
                 continue
             ks.append(("define", dict(n=n, dims=dims, ids=ids)))
+    for fixed in ([], [0], [2, 0]):
+        ks.append(("define_symid", dict(n=3, dims=2, fixed=fixed)))
     for n in ((2,) if quick else (2, 3)):
         perms = [p for p in itertools.permutations(range(n)) if p != tuple(range(n))]
         for perm in perms[:2]:
@@ -214,7 +253,7 @@ def harness(kernel, shape):
         from checks import c08
 
         return c08.h_mappable(shape)
-    return {"order": h_order, "define": h_define, "wmap": h_wmap}[kernel](shape)
+    return {"order": h_order, "define": h_define, "define_symid": h_define_symid, "wmap": h_wmap}[kernel](shape)
 
 
 _k19, _setup19, _setupc19 = kernels, setup, setup_concrete
